@@ -83,6 +83,7 @@ type harnessResult struct {
 	Confirm    map[*symgo.Violation]string // violation -> "confirmed" | reason
 	Replayed   int
 	CrossCheck string
+	Overrides  map[string]string // every //vf:override in force for this harness: its own file's and those of the other harness files of the property in the same package
 }
 
 func cmdCheck(args []string) int {
@@ -200,6 +201,10 @@ func cmdCheck(args []string) int {
 						break
 					}
 					x.SetOverride(from, tf)
+					if hr.Overrides == nil {
+						hr.Overrides = map[string]string{}
+					}
+					hr.Overrides[from] = to
 				}
 				for _, p := range other.SkipInit {
 					x.SkipInit(p)
@@ -823,7 +828,7 @@ func writeEvidence(prop, tier string, seed int, results []*harnessResult, traces
 		harnesses = append(harnesses, map[string]interface{}{
 			"name": hr.Spec.Name, "package": hr.File.PkgPath, "nopanic": hr.Spec.NoPanic,
 			"paths_completed": st.Completed, "paths_panicked": st.Panicked, "paths_infeasible": st.Infeasible, "paths_inconclusive": st.Inconclusive,
-			"vcs": st.VCs, "cross_solver_check": hr.CrossCheck, "if_conversions": st.IfConv, "range_pruned_branches": st.RangePruned, "fallback_queries": st.Fallbacks, "instructions": st.Instrs, "wall_s": round(hr.Wall.Seconds()), "reach": reach, "overrides": hr.File.Overrides,
+			"vcs": st.VCs, "cross_solver_check": hr.CrossCheck, "if_conversions": st.IfConv, "range_pruned_branches": st.RangePruned, "fallback_queries": st.Fallbacks, "instructions": st.Instrs, "wall_s": round(hr.Wall.Seconds()), "reach": reach, "overrides": hr.Overrides,
 		})
 		labels := make([]string, 0)
 		for l := range hr.X.Reached {
